@@ -601,6 +601,75 @@ func ruleFieldAgreement(c *Check, p *Prog, tp *types.Package, goT, pbT string) {
 			}
 			switch x := n.In.(type) {
 			case *ssa.Store:
+				// a store through the destination pointer of a row of a local table of
+				// (destination, source) pairs walked by a loop: for the row whose destination is
+				// this leaf, a write of that row's source
+				if tal, pf := tableField(x.Addr, 0); tal != nil {
+					lit := ssa.Value(tal)
+					// a table variable whose address is taken is initialised by one copy of the literal
+					for _, r := range *tal.Referrers() {
+						if st2, ok := r.(*ssa.Store); ok && st2.Addr == ssa.Value(tal) {
+							if ld, ok := st2.Val.(*ssa.UnOp); ok && ld.Op == token.MUL {
+								if inner, ok := ld.X.(*ssa.Alloc); ok {
+									lit = inner
+								}
+							}
+						}
+					}
+					rows := litStores(lit)
+					if os.Getenv("VERIF_DEBUG_C12") != "" {
+						fmt.Fprintf(os.Stderr, "DBGT want=%s pf=%s rows=%d\n", want, pf, len(rows))
+						for k, v := range rows {
+							if len(v) > 0 {
+								fmt.Fprintf(os.Stderr, "DBGT   %s = %s\n", k, TermOf(v[0], n.Ctx).String())
+							}
+						}
+					}
+					for i := 0; ; i++ {
+						ps := rows[fmt.Sprintf("[%d].%s", i, pf)]
+						if len(ps) != 1 {
+							break
+						}
+						if strings.TrimPrefix(TermOf(ps[0], n.Ctx).String(), "&") != want {
+							continue
+						}
+						src := TermOf(x.Val, n.Ctx)
+						// the value read from the row's other field(s)
+						var rowSrc *Term
+						var find func(v ssa.Value, d int)
+						find = func(v ssa.Value, d int) {
+							if v == nil || d > 4 || rowSrc != nil {
+								return
+							}
+							if al2, sf := tableField(v, 0); al2 == tal && sf != pf && sf != "" {
+								if vs := rows[fmt.Sprintf("[%d].%s", i, sf)]; len(vs) == 1 {
+									rowSrc = TermOf(vs[0], n.Ctx)
+								}
+								return
+							}
+							if in2, ok := v.(ssa.Instruction); ok {
+								for _, op := range in2.Operands(nil) {
+									if op != nil && *op != nil {
+										find(*op, d+1)
+									}
+								}
+							}
+						}
+						find(x.Val, 0)
+						if rowSrc != nil {
+							src = rowSrc
+						}
+						// the loop walks every row of the constant table: passing the loop is
+						// passing this row's write (either branch of it assigns the leaf)
+						wn := n
+						if hb := loopHeaderOf(x.Block()); hb != nil {
+							if hn := g.headNode(n.Ctx, hb); hn != nil {
+								wn = hn
+							}
+						}
+						writes = append(writes, wr{wn, src})
+					}
+				}
 				at := TermOf(x.Addr, n.Ctx).String()
 				if at == want || strings.HasPrefix(at, want+".") {
 					writes = append(writes, wr{n, TermOf(x.Val, n.Ctx)})
@@ -818,6 +887,33 @@ func ruleHashDefs(c *Check, p *Prog) {
 			}
 		}
 		inst := "Data." + m + " = leafHash(sha256, MarshalBinary(·))"
+		// the commitment may encode the message directly: proto.Marshal of a pb.Data carrying only
+		// Txs, built from the receiver's transactions by the same conversion Data.ToProto uses —
+		// the bytes MarshalBinary gives for a Data without metadata
+		if m == "DACommitment" && leaf != nil && !strings.Contains(leaf.String(), "types.Data).MarshalBinary(") && strings.Contains(leaf.String(), "proto.Marshal(") {
+			txsOf := func(f *ssa.Function) (string, int) {
+				for _, b := range f.Blocks {
+					for _, in := range b.Instrs {
+						if al, isA := in.(*ssa.Alloc); isA && strings.HasSuffix(al.Type().String(), "v1.Data") {
+							st := litStores(al)
+							if len(st["Txs"]) == 1 {
+								t := TermOf(st["Txs"][0], &Ctx{Fn: f}).String()
+								return strings.ReplaceAll(t, f.Params[0].Name()+".", "recv."), len(st)
+							}
+						}
+					}
+				}
+				return "", 0
+			}
+			want, _ := txsOf(p.MustFunc(typesM("Data", "ToProto")))
+			got, nFields := txsOf(fn)
+			if want != "" && got == want && nFields == 1 {
+				c.OK(rule, inst, fnName(fn), p.Pos(fn.Pos()), "over the protobuf message carrying only the receiver's transactions, converted as Data.ToProto converts them (metadata excluded)", true)
+			} else {
+				c.Bad(rule, inst, fnName(fn), p.Pos(fn.Pos()), "the commitment encodes a message that is not Data.ToProto's message for the bare transaction list (Txs: "+trunc(got, 60)+", "+fmt.Sprint(nFields)+" fields set)", nil)
+			}
+			continue
+		}
 		if leaf == nil || !strings.Contains(leaf.String(), "types.Data).MarshalBinary(") {
 			c.Bad(rule, inst, fnName(fn), p.Pos(fn.Pos()), "not the sha256 leaf hash of the data's binary encoding", nil)
 			continue
